@@ -98,3 +98,82 @@ contract(O + "StopLimitOrder.get_balance_updates", props=P, types=GBU_T, returns
          ensures=GBU_ENS + SL_PRICE + [
              ("latch", "self._stop_price_hit == (old(self._stop_price_hit) or ((bar.high >= self._stop_price) if is_buy(self) else (bar.low <= self._stop_price)))"),
              ("fill_needs_latch", "implies(ob(self) in result, self._stop_price_hit)")])
+
+# =======================================================================================================================
+# Order state machine (C05): constructor, cancel, add_fill, not_filled, get_order_info
+# =======================================================================================================================
+INIT_T = {"id": "Str", "amount": "Real", "limit_price": "Real", "stop_price": "Real"}
+specfun("order_fresh", ["o", "id", "operation", "pair", "amount", "state", "auto_borrow", "auto_repay"],
+        "o._id == id and o._operation == operation and o._pair == pair and o._amount == amount and o._state == state "
+        "and o._auto_borrow == auto_borrow and o._auto_repay == auto_repay "
+        "and forall(lambda s=Str: not (s in o._balance_updates)) and forall(lambda s=Str: not (s in o._fees)) "
+        "and seq_len(o._fills) == 0 and forall(lambda s=Str: not (s in o._loan_ids)) "
+        "and fresh(o._balance_updates) and fresh(o._fees) and fresh(o._fills) and fresh(o._loan_ids)")
+
+contract(O + "Order.__init__", props=["C05"], types=INIT_T,
+         ensures=[("fields", "order_fresh(self, id, operation, pair, amount, state, auto_borrow, auto_repay)"), ("amount", "amount > 0")],
+         raises={"AssertionError!": [("bad", "not (amount > 0)")]}, modifies=["self"])
+for cls, extra, cond in (("MarketOrder", "", "amount > 0"),
+                         ("LimitOrder", " and self._limit_price == limit_price", "amount > 0 and limit_price > 0"),
+                         ("StopOrder", " and self._stop_price == stop_price", "amount > 0 and stop_price > 0"),
+                         ("StopLimitOrder", " and self._limit_price == limit_price and self._stop_price == stop_price and not self._stop_price_hit",
+                          "amount > 0 and limit_price > 0 and stop_price > 0")):
+    contract(O + cls + ".__init__", props=["C05"], types=INIT_T,
+             ensures=[("fields", "order_fresh(self, id, operation, pair, amount, state, auto_borrow, auto_repay)" + extra),
+                      ("valid", cond)],
+             raises={"AssertionError!": [("bad", "not (%s)" % cond)]}, modifies=["self"])
+
+contract(O + "Order.cancel", props=["C05", "C07"],
+         requires=[("open", "st_open(self)")],
+         ensures=[("canceled", "self._state == OrderState.CANCELED")],
+         modifies=["self._state"])
+
+# what a fill must look like (established by OrderManager._process_order from the base contract of get_balance_updates
+# + rounding): base and quote of the right sign, not more than what is pending, fees are debits
+specfun("fill_ok", ["o", "bu", "fees"],
+        "abs(at(bu, ob(o))) > 0 and abs(at(bu, ob(o))) <= pending(o) "
+        "and ((at(bu, ob(o)) > 0 and at(bu, oq(o)) <= 0) if is_buy(o) else (at(bu, ob(o)) < 0 and at(bu, oq(o)) >= 0)) "
+        "and forall(lambda s=Str: at(fees, s) <= 0)")
+
+contract(O + "Order.add_fill", props=["C05", "C01", "C09"],
+         types={"balance_updates": "Dict[Str,Real]", "fees": "Dict[Str,Real]"},
+         requires=[("wf", "order_wf(self)"), ("open", "st_open(self)"), ("fill", "fill_ok(self, balance_updates, fees)"),
+                   ("noalias", "distinct(self._balance_updates, self._fees, balance_updates, fees)")],
+         ensures=[("ledger", "forall(lambda s=Str: at(self._balance_updates, s) == old(at(self._balance_updates, s)) + at(balance_updates, s))"),
+                  ("fees", "forall(lambda s=Str: at(self._fees, s) == old(at(self._fees, s)) + at(fees, s))"),
+                  # monotone: the filled amount only grows and never exceeds the ordered amount
+                  ("monotone", "filled(self) == old(filled(self)) + abs(at(balance_updates, ob(self))) and filled(self) <= self._amount"),
+                  ("closes", "self._state == (OrderState.COMPLETED if filled(self) >= self._amount else OrderState.OPEN)"),
+                  ("wf", "order_wf(self)"),
+                  ("fill_recorded", "seq_len(self._fills) == old(seq_len(self._fills)) + 1 "
+                                    "and same_object(seq_at(self._fills, seq_len(self._fills) - 1).balance_updates, balance_updates) "
+                                    "and same_object(seq_at(self._fills, seq_len(self._fills) - 1).fees, fees) "
+                                    "and seq_at(self._fills, seq_len(self._fills) - 1).when == when")],
+         modifies=["content(self._balance_updates)", "content(self._fees)", "self._state", "content(self._fills)"])
+
+contract(O + "Order.add_loan", props=["C11"], types={"loan_id": "Str"},
+         ensures=[("added", "forall(lambda s=Str: (s in self._loan_ids) == (old(s in self._loan_ids) or s == loan_id))")],
+         modifies=["content(self._loan_ids)"])
+
+contract(O + "Order.not_filled", props=["C05"], ensures=[], modifies=[])
+for cls in ("MarketOrder", "StopOrder"):
+    contract(O + cls + ".not_filled", props=["C05"],
+             requires=[("open", "st_open(self)")],
+             ensures=[("fill_or_kill", "self._state == OrderState.CANCELED")], modifies=["self._state"])
+
+INFO_ENS = [("fresh", "fresh(result)"),
+            ("mirror", "result.id == self._id and result.is_open == st_open(self) and result.operation == self._operation "
+                       "and result.amount == self._amount and result.amount_filled == filled(self) "
+                       "and result.amount_remaining == pending(self) and result.quote_amount_filled == abs(at(self._balance_updates, oq(self)))"),
+            # filled + remaining = amount
+            ("sum", "result.amount_filled + result.amount_remaining == result.amount"),
+            # fees are reported non-negative, zero entries dropped
+            ("fees", "forall(lambda s=Str: at(result.fees, s) == -at(self._fees, s)) and forall(lambda s=Str: (s in result.fees) == ((s in self._fees) and at(self._fees, s) != 0))")]
+contract(O + "Order.get_order_info", props=["C05", "C09"], returns="OrderInfo", ensures=INFO_ENS +
+         [("no_prices", "is_none(result.limit_price) and is_none(result.stop_price)")], modifies=[])
+contract(O + "LimitOrder.get_order_info", props=["C05", "C09"], returns="OrderInfo", ensures=INFO_ENS +
+         [("prices", "result.limit_price == self._limit_price and is_none(result.stop_price)")], modifies=[])
+contract(O + "StopOrder.get_order_info", props=["C05", "C09"], returns="OrderInfo", ensures=INFO_ENS +
+         [("prices", "result.stop_price == self._stop_price and is_none(result.limit_price)")], modifies=[])
+contract(O + "StopLimitOrder.get_order_info", props=["C05", "C09"], returns="OrderInfo", ensures=INFO_ENS +
+         [("prices", "result.stop_price == self._stop_price and result.limit_price == self._limit_price")], modifies=[])
